@@ -275,6 +275,23 @@ def eval_section(case):
             pass
         except Exception as exc:
             return ["%s plus an absolute path: %s raised %s: %s" % (what, label, type(exc).__name__, exc)]
+    # several spellings of one file with values of their own: the table is keyed by the path as the file spells it
+    ini2 = K.Ini(text)
+    exp2 = dict(exp)
+    for j, sp in enumerate(("images/sub/../p1.img", "./images/p1.img", "images//p1.img")):
+        ini2.p.set("checksums", sp, "sha256:" + "%x" % (j + 1) * 64)
+        exp2[sp] = ("sha256", "%x" % (j + 1) * 64)
+    ta = TreeInfo()
+    try:
+        ta.loads(ini2.text())
+        tb = TreeInfo()
+        tb.loads(ta.dumps())
+    except Exception as exc:
+        return ["%s plus three spellings of images/p1.img: write/read cycle raised %s: %s" % (what, type(exc).__name__, exc)]
+    for label, tt in (("loaded", ta), ("after a write/read cycle", tb)):
+        gota = {k: tuple(v) for k, v in tt.checksums.checksums.items()}
+        if gota != exp2:
+            return ["%s plus three spellings of images/p1.img with digests of their own: %s %s, the file says %s" % (what, label, gota, exp2)]
     # the same file read by an object that read ANOTHER file before: every path maps to what THIS file says
     tr = TreeInfo()
     tr.loads(LEGACY)
